@@ -118,7 +118,7 @@ fn sweep_scalars(world: &World, table: &RewriteTable, label: &str, rep: &mut Rep
 }
 
 pub fn run(ctx: &Ctx, rep: &mut Report) {
-    let std_text = std::fs::read_to_string("/repo/resources/rewrite.def").unwrap_or_default();
+    let std_text = std::fs::read_to_string(crate::env::repo_root().join("resources/rewrite.def")).unwrap_or_default();
     // --- exhaustive single-character sweep, split over the shards by code-point blocks
     {
         let mut rng = Rng::derive(ctx.seed, 0xC07, 0);
